@@ -353,7 +353,11 @@ class CallbackCycleScn:
                     if got != [1, "END"]:
                         w.observe("calls-after-failure", cyc, list(got))
                     continue
-                if P["end"] == "remote-close":
+                if P["end"] == "drop-then-body-eof":
+                    # the body blocks in receive(); dropping our handle makes its end "sendonly", its receive()
+                    # raises EOFError and the body returns: the end of the execution must still close the channel
+                    ch = gw.remote_exec("channel.send(1)\nchannel.receive()")
+                elif P["end"] == "remote-close":
                     ch = gw.remote_exec("channel.send(1)")
                 elif P["end"] == "cb-raises":
                     ch = gw.remote_exec("channel.receive()\nchannel.send(1)\ntry:\n    channel.waitclose(5)\nexcept Exception:\n    pass")
@@ -564,7 +568,7 @@ def run(tier: str, only=None) -> int:
         if only and only not in name:
             continue
         harness.run_exploration(rep, PID, name, CycleDropScn, {"who": "init", "gc_anywhere": True, "callback": cb}, {"ps": 0, "env": 1, "free": 0} if tier == "quick" else {"ps": 1, "env": 1, "free": 0}, max_execs=cap)
-    for end in ("remote-close", "remote-error", "cb-raises", "cb-raises-peer-keeps"):
+    for end in ("remote-close", "remote-error", "cb-raises", "cb-raises-peer-keeps", "drop-then-body-eof"):
         name = f"cbcycle/{end}"
         if only and only not in name:
             continue
